@@ -302,6 +302,21 @@ impl<'a, 'tcx> Cx<'a, 'tcx> {
         // trait of the original item (for trait-method identity)
         if let Some(tr) = tcx.trait_of_assoc(did) {
             o.put("trait", J::s(&defpath(tcx, tr)));
+            // for Iterator adaptors: what the receiver yields (an adaptor over Result items can swallow errors)
+            if Some(tr) == tcx.get_diagnostic_item(rustc_span::sym::Iterator) {
+                if let Some(self_ty) = args_n.iter().filter_map(|a| a.as_type()).next() {
+                    if let Some(item) = tcx
+                        .associated_items(tr)
+                        .in_definition_order()
+                        .find(|i| i.name() == rustc_span::sym::Item)
+                    {
+                        let proj = Ty::new_projection(tcx, item.def_id, [self_ty]);
+                        if let Ok(it) = tcx.try_normalize_erasing_regions(typing_env, ty::Unnormalized::new_wip(proj)) {
+                            o.put("iter_item", J::s(&tystr(it)));
+                        }
+                    }
+                }
+            }
         }
         // impl self type when resolved into an inherent/trait impl
         if let Some(imp) = tcx.impl_of_assoc(resolved) {
